@@ -299,7 +299,8 @@ func ZZ_C15_CacheKeys() {
 }
 
 // C15: updates that keep a pod's owner and labels (the cache key) but change what its verdicts depend on — the number
-// behind a named container port — as a Pod update and as a Deployment update; the policy allows the named port only.
+// behind a named container port — as a Pod replaced in place, as a Pod deleted and inserted again, and as a Deployment
+// update; the policy (inserted before or after the pod, which resets the cache's owner bookkeeping) allows the named port only.
 func ZZ_C15_PortUpdate() {
 	c1, c2 := zzPortVar("c1"), zzPortVar("c2")
 	ns := zzNsObj("ns1", map[string]string{"env": "prod"}).Namespace
@@ -315,9 +316,13 @@ func ZZ_C15_PortUpdate() {
 	pe := NewPolicyEngine()
 	var cur []parser.K8sObject
 	dst := "ns1/p1"
-	ok := pe.InsertObject(ns) == nil && pe.InsertObject(p2) == nil && pe.InsertObject(np) == nil
-	asDeploy := vf_Choose("kind", 2) == 1
-	if asDeploy {
+	mode := vf_Choose("mode", 3) // 0 pod replaced in place, 1 pod deleted and inserted again, 2 deployment updated
+	policyFirst := vf_Choose("policy.first", 2) == 1
+	ok := pe.InsertObject(ns) == nil && pe.InsertObject(p2) == nil
+	if policyFirst {
+		ok = ok && pe.InsertObject(np) == nil
+	}
+	if mode == 2 {
 		d1, d2 := zzDeployObj("ns1", "p1", map[string]string{"app": "a"}, mk(c1)), zzDeployObj("ns1", "p1", map[string]string{"app": "a"}, mk(c2))
 		ok = ok && pe.InsertObject(d1.Deployment) == nil
 		for name := range pe.podsMap {
@@ -325,13 +330,22 @@ func ZZ_C15_PortUpdate() {
 				dst = name // the pod generated for the deployment
 			}
 		}
+		if !policyFirst {
+			ok = ok && pe.InsertObject(np) == nil
+		}
 		_, _ = pe.CheckIfAllowed("ns1/p2", dst, "TCP", "80")
 		ok = ok && pe.InsertObject(d2.Deployment) == nil
 		cur = []parser.K8sObject{{Kind: parser.Namespace, Namespace: ns}, {Kind: parser.Pod, Pod: p2}, {Kind: parser.NetworkPolicy, NetworkPolicy: np}, d2}
 	} else {
 		a1, a2 := zzPodObj("ns1", "p1", map[string]string{"app": "a"}, mk(c1), "oa"), zzPodObj("ns1", "p1", map[string]string{"app": "a"}, mk(c2), "oa")
 		ok = ok && pe.InsertObject(a1.Pod) == nil
+		if !policyFirst {
+			ok = ok && pe.InsertObject(np) == nil
+		}
 		_, _ = pe.CheckIfAllowed("ns1/p2", dst, "TCP", "80")
+		if mode == 1 {
+			ok = ok && pe.DeleteObject(a1.Pod) == nil
+		}
 		ok = ok && pe.InsertObject(a2.Pod) == nil
 		cur = []parser.K8sObject{{Kind: parser.Namespace, Namespace: ns}, {Kind: parser.Pod, Pod: p2}, {Kind: parser.NetworkPolicy, NetworkPolicy: np}, a2}
 	}
